@@ -288,7 +288,7 @@ def alias_history(seed, res):
                 res.outcome(('alias', how, mode))
 
 
-def short_cart_text(rows):
+def short_cart_text(rows, blank=()):
     """A .p8 file whose data sections have only the first `rows[name]` rows (None = section left out), as PICO-8
     writes carts whose trailing rows are empty."""
     from lib import refcodec as rc
@@ -303,6 +303,8 @@ def short_cart_text(rows):
         if name == 'music':
             data = bytes((b & 0x7f) if i % 4 == 3 else b for i, b in enumerate(data))
         out.append(b'__' + name.encode() + b'__\n' + b''.join(r.encode() + b'\n' for r in enc[name](data)[:rows[name]]))
+        if name in blank:
+            out.append(b'\n')      # PICO-8 (and picotool's writer) put a blank line at the end of some sections
     return b''.join(out)
 
 
@@ -314,19 +316,24 @@ def loaded_history(seed, res):
     are left out): the memory map is the same 0x4300 bytes, so every boundary write must land where it is addressed."""
     import io
     from pico8.game.formatter.p8 import P8Formatter
-    variants = [('full', dict(FULL_ROWS))]
+    variants = [('full', dict(FULL_ROWS), ())]
     for name in FULL_ROWS:
         for r in (None, 0, 1, FULL_ROWS[name] - 1):
             v = dict(FULL_ROWS)
             v[name] = r
-            variants.append(('%s-rows-%s' % (name, r), v))
-    variants.append(('all-short', {'gfx': 3, 'map': 2, 'gff': 1, 'music': 1, 'sfx': 2}))
-    variants.append(('only-lua', {}))
-    for tag, rows in variants:
+            variants.append(('%s-rows-%s' % (name, r), v, ()))
+            if r is not None:
+                # the same section ending in a blank line (as the files PICO-8 and picotool write do)
+                variants.append(('%s-rows-%s-blank' % (name, r), v, (name,)))
+        variants.append(('%s-full-blank' % name, dict(FULL_ROWS), (name,)))
+    variants.append(('all-short', {'gfx': 3, 'map': 2, 'gff': 1, 'music': 1, 'sfx': 2}, ()))
+    variants.append(('all-short-blank', {'gfx': 3, 'map': 2, 'gff': 1, 'music': 1, 'sfx': 2}, tuple(FULL_ROWS)))
+    variants.append(('only-lua', {}, ()))
+    for tag, rows, blank in variants:
         res.evaluations += 1
         case = {'loaded': tag}
         try:
-            g = P8Formatter.from_file(io.BytesIO(short_cart_text(rows)), filename='x.p8')
+            g = P8Formatter.from_file(io.BytesIO(short_cart_text(rows, blank)), filename='x.p8')
         except Exception as e:
             res.violation('C18|loaded|load-raise|%s' % type(e).__name__, 'loading %s raised %r' % (tag, e), case)
             continue
